@@ -30,7 +30,7 @@ ASSUMPTIONS = [
 MAX_TAPE = 12
 
 
-def check_program(body, case, acc, bound, presets=None, max_runs=4000):
+def check_program(body, case, acc, bound, presets=None, max_runs=40000):
     """Explore one program. Returns the number of distinct observations."""
     prog = harness.Program(body, presets)
     prog.parse()
